@@ -34,6 +34,19 @@ def make_case(rng, LA, LB, branch, ecpL=None, benign=False, twin=None):
     A, B = away(), away()
     while sum((a - b) ** 2 for a, b in zip(A, B)) < 0.3:
         B = away()
+    # a third of the off-centre shells sit in the plane x + y + z = const through the ECP (offset components summing to zero),
+    # on a coordinate axis through it, or on a diagonal: where a test of "is this shell on the ECP" that combines the components
+    # in any way other than a norm gives the wrong answer
+    def special(P):
+        k = rng.random()
+        if k < 0.67:
+            return P
+        a, b_ = round(rng.uniform(0.5, 1.5) * rng.choice([-1, 1]), 3), round(rng.uniform(0.2, 1.2) * rng.choice([-1, 1]), 3)
+        off = rng.choice([(a, -a, 0.0), (0.0, a, -a), (a, b_, round(-(a + b_), 3)), (a, 0.0, 0.0), (0.0, 0.0, a), (a, a, a)])
+        return [round(C[i] + off[i], 3) for i in range(3)]
+    A, B = special(A), special(B)
+    if sum((a - b) ** 2 for a, b in zip(A, B)) < 0.05:
+        B = away()
     if branch in ("A=C", "A=B=C"):
         A = list(C)
     if branch in ("B=C", "A=B=C"):
